@@ -30,7 +30,7 @@ def src_hash() -> str:
         if p.is_file() and p.suffix in (".py", ".yaml", ".md", ".toml"):
             h.update(str(p.relative_to(common.REPO)).encode())
             h.update(p.read_bytes())
-    for p in sorted((common.VERIF / "harness").glob("*.py")) + [common.VERIF / "harness" / "corpus" / "seeds.json", common.VERIF / "harness" / "corpus" / "extra_seeds.json"]:
+    for p in sorted((common.VERIF / "harness").glob("*.py")) + [common.VERIF / "harness" / "corpus" / n for n in ("seeds.json", "extra_seeds.json", "added_imports.json")]:
         h.update(p.read_bytes())
     return h.hexdigest()[:16]
 
@@ -39,7 +39,7 @@ def indent(code: str, n=4) -> str:
     return "".join((" " * n + ln) if ln.strip() else ln for ln in code.splitlines(keepends=True))
 
 
-def variants(code: str, rng) -> dict[str, str]:
+def variants(code: str, rng, added_imports=()) -> dict:
     """context / nesting / layout variants of one trigger snippet; each is kept only if it still compiles"""
     header, body = sites.split_seed(code)
     h, b = "".join(header), "".join(body)
@@ -56,6 +56,16 @@ def variants(code: str, rng) -> dict[str, str]:
         lay = sites.build(code, 2, [1, 2], 0)
         if lay is not None:
             out["two-sites"] = lay.text
+    if added_imports:
+        # what the codemod imports is already imported (and used) - but only inside an unrelated function or class body
+        def bound(lines):
+            names = []
+            for ln in lines:
+                for n in ast.parse(ln).body[0].names:
+                    names.append((n.asname or n.name).split(".")[0])
+            return ", ".join(dict.fromkeys(names))
+        out["nested-scope-imports"] = (code + "\n\ndef _late_imports():\n" + "".join(f"    {ln}\n" for ln in added_imports) + f"    return [{bound(added_imports)}]\n\n\nclass _Cfg:\n"
+                                       + "".join(f"    {ln}\n" for ln in added_imports[:2]) + f"    x = [{bound(added_imports[:2])}]\n")
     out["crlf"] = code.replace("\n", "\r\n")
     out["no-final-newline"] = code.rstrip("\n")
     out["trailing-comment"] = code.rstrip("\n") + "  # trailing comment\n"
@@ -67,7 +77,34 @@ def variants(code: str, rng) -> dict[str, str]:
             good[k] = v
         except SyntaxError:
             pass
+    # a source file in a legacy encoding announced by a PEP 263 cookie (bytes, not text)
+    try:
+        legacy = ("# -*- coding: latin-1 -*-\ncaf\u00e9 = '\u00e9t\u00e9'\n" + code).encode("latin-1")
+        compile(legacy, "x", "exec")
+        good["cookie-latin1"] = legacy
+    except (SyntaxError, UnicodeError, ValueError):
+        pass
     return good
+
+
+def to_text(b: bytes) -> str:
+    try:
+        return b.decode("utf-8")
+    except UnicodeDecodeError:
+        return b.decode("latin-1")
+
+
+def compiles(b: bytes) -> bool:
+    """does Python accept the file as it is on disk (the coding cookie is honoured)"""
+    try:
+        compile(b, "x", "exec")
+        return True
+    except (SyntaxError, ValueError, UnicodeError):
+        try:
+            ast.parse(b)
+            return True
+        except Exception:
+            return False
 
 
 def semgrep_flag(codemod, files: list[Path]) -> dict[str, list]:
@@ -155,7 +192,8 @@ def cli_step(job):
     proj = Path(job["proj"])
     r = e2e.run(proj, ["--codemod-include", job["codemod"]])
     ch, failed = _per_file(r["report"])
-    return {"rc": r["rc"], "changes": ch, "failed": sorted(failed), "tree": {k: v.decode("utf-8", "replace") for k, v in e2e.read_tree(proj).items()}}
+    tree = e2e.read_tree(proj)
+    return {"rc": r["rc"], "changes": ch, "failed": sorted(failed), "tree": {k: to_text(v) for k, v in tree.items()}, "compiles": {k: compiles(v) for k, v in tree.items()}}
 
 
 def _is_semgrep(cm):
@@ -181,6 +219,7 @@ def run_pass(tier: str, seed: int, want: set[str] | None = None) -> dict:
     sg = {c.id for c in reg.codemods if isinstance(c.detector, SemgrepRuleDetector)}
     seeds = e2e.load_seeds()
     extra = json.loads((common.VERIF / "harness" / "corpus" / "extra_seeds.json").read_text())
+    added = json.loads((common.VERIF / "harness" / "corpus" / "added_imports.json").read_text())
     rng = random.Random(f"progspace-{seed}")
     ids = sorted(k for k, v in seeds.items() if v and any(c.id == k for c in reg.codemods))
     if tier == "quick":
@@ -199,8 +238,9 @@ def run_pass(tier: str, seed: int, want: set[str] | None = None) -> dict:
         pool = (prio + [x for x in pool if x not in prio])[: max(len(prio), 4 if tier == "quick" else 14)]
         programs = {}
         for si, code in enumerate(pool):
-            vs = variants(code, rng)
-            keys = list(vs) if tier != "quick" else (["identity"] + rng.sample([k for k in vs if k != "identity"], min(5, len(vs) - 1)))
+            vs = variants(code, rng, [] if cid.endswith(("order-imports", "unused-imports", "remove-future-imports")) else added.get(cid, []))
+            always = [k for k in ("identity", "nested-scope-imports") if k in vs] + (["cookie-latin1"] if si == 0 and "cookie-latin1" in vs else [])
+            keys = list(vs) if tier != "quick" else (always + rng.sample([k for k in vs if k not in always], min(4, len(vs) - len(always))))
             for k in keys:
                 programs[f"s{si}_{k.replace('-', '_')}"] = vs[k]
         programs.update(callshapes.programs(cid, rng, 8 if tier == "quick" else 0))
@@ -210,7 +250,7 @@ def run_pass(tier: str, seed: int, want: set[str] | None = None) -> dict:
     try:
         for j in jobs:
             j["proj"] = str(root / j["codemod"].replace(":", "_").replace("/", "_") / "p")
-            e2e.write_project(Path(j["proj"]), {name + ".py": text.encode("utf-8") for name, text in j["programs"].items()})
+            e2e.write_project(Path(j["proj"]), {name + ".py": (text if isinstance(text, bytes) else text.encode("utf-8")) for name, text in j["programs"].items()})
         items = [(by_id[j["codemod"]], Path(j["proj"])) for j in jobs]
         flagged0 = flag_many(items)
         step = [{"codemod": j["codemod"], "proj": j["proj"]} for j in jobs]
@@ -228,7 +268,8 @@ def run_pass(tier: str, seed: int, want: set[str] | None = None) -> dict:
             for name, text in j["programs"].items():
                 fn = name + ".py"
                 path = str(Path(j["proj"]) / fn)
-                recs[name] = {"before": text, "after": r1["tree"][fn], "after2": r2["tree"][fn],
+                recs[name] = {"before": to_text(text) if isinstance(text, bytes) else text, "after": r1["tree"][fn], "after2": r2["tree"][fn],
+                              "before_compiles": compiles(text if isinstance(text, bytes) else text.encode("utf-8")), "after_compiles": r1["compiles"][fn],
                               "changes": r1["changes"].get(fn), "failed": fn in r1["failed"], "changes2": r2["changes"].get(fn), "failed2": fn in r2["failed"],
                               "flagged0": flagged0.get(cid, {}).get(path, []), "flagged1": flagged1.get(cid, {}).get(path, [])}
             out[cid] = {"codemod": cid, "rc": [r1["rc"], r2["rc"]], "semgrep": cid in sg, "records": recs}
